@@ -433,7 +433,7 @@ pub fn job_c12(out_dir: &str, tier: &str, seed: u64) {
     for (ii, input) in inputs.iter().enumerate() {
         let nsets = if ii <= gen::FRAGS.len() { 4 } else { 2 };
         for si in 0..nsets {
-            let (_, hs) = &sets[(ii * 7 + si * 3 + rng.below(2)) % sets.len()];
+            let (_, hs) = &sets[(ii + si * 3 + rng.below(2)) % sets.len()];
             let meta = ii % 3 == 2 || rng.chance(1, 6);
             let base = gen::merge(hs, &json!({"strict": rng.chance(3, 4), "enc": "utf-8", "meta": meta}));
             let mut cutsets = gen::light_cut_sets(input.len(), &mut rng, 2);
@@ -493,20 +493,22 @@ pub fn job_c12(out_dir: &str, tier: &str, seed: u64) {
         "failure_injection_runs": failure_runs, "memory_limit_runs": mem_runs}));
 }
 
-pub fn job_c15(out_dir: &str, tier: &str, seed: u64) { job_c15_impl(out_dir, tier, seed, None) }
+pub fn job_c15(out_dir: &str, tier: &str, seed: u64) { job_c15_impl(out_dir, tier, seed, None, false) }
 
 /// The pathological shapes run one per child process (`lh gen-c15-shape`), on a thread with a 1 MiB stack: stack
 /// exhaustion or an abort kills the child, not the job, and is recorded as a panic-like event of that shape.
-pub fn job_c15_shape_child(out_dir: &str, tier: &str, seed: u64, si: usize) {
+pub fn job_c15_shape_child(out_dir: &str, tier: &str, seed: u64, si: usize, stack_only: bool) {
     let (o, t) = (out_dir.to_string(), tier.to_string());
-    let h = std::thread::Builder::new().stack_size(1 << 20).spawn(move || job_c15_impl(&o, &t, seed, Some(si))).unwrap();
+    let h = std::thread::Builder::new().stack_size(1 << 20).spawn(move || job_c15_impl(&o, &t, seed, Some(si), stack_only)).unwrap();
     if h.join().is_err() { std::process::exit(3); }
 }
 
-fn job_c15_impl(out_dir: &str, tier: &str, seed: u64, only: Option<usize>) {
+/// `stack_only`: the unoptimised build's pass over one shape (one handler configuration, one schedule, half size):
+/// only whether the call returns on a 1 MiB stack matters.
+fn job_c15_impl(out_dir: &str, tier: &str, seed: u64, only: Option<usize>, stack_only: bool) {
     let quick = tier == "quick";
     let mut rng = Rng::new(seed ^ 0xC15);
-    let prefix = match only { None => "c15".to_string(), Some(si) => format!("c15s{si}") };
+    let prefix = match only { None => "c15".to_string(), Some(si) => if stack_only { format!("c15k{si}") } else { format!("c15s{si}") } };
     let mut sh = Shards::new(out_dir, &prefix, 6_000_000);
     let mut sets = gen::observer_sets();
     sets.extend(mutating_sets());
@@ -623,7 +625,7 @@ fn job_c15_impl(out_dir: &str, tier: &str, seed: u64, only: Option<usize>) {
         shapes.push(("many-selectors-deep".into(), b"<div class=c><a href=x>".repeat(sz(10_000))));
         shapes
     };
-    let scale = if quick { 1.0 } else { 4.0 };
+    let scale = if stack_only { 0.5 } else if quick { 1.0 } else { 4.0 };
     let shapes = build_shapes(scale);
     let shapes_half = build_shapes(scale / 2.0);
     if only.is_none() {
@@ -632,6 +634,19 @@ fn job_c15_impl(out_dir: &str, tier: &str, seed: u64, only: Option<usize>) {
         for (si, (name, _)) in shapes.iter().enumerate() {
             let st = std::process::Command::new(&exe).args(["gen-c15-shape", tier, &seed.to_string(), out_dir, &si.to_string()])
                 .stdout(std::process::Stdio::null()).stderr(std::process::Stdio::null()).status();
+            // the same shape once more in the unoptimised build (target/stackcheck/lh, built by bin/check for C15)
+            let exe_k = exe.parent().and_then(|p| p.parent()).map(|p| p.join("stackcheck").join("lh"));
+            let st_k = match &exe_k { Some(k) if k.exists() => Some(std::process::Command::new(k).args(["gen-c15-shape", tier, &seed.to_string(), out_dir, &si.to_string(), "stack"])
+                .stdout(std::process::Stdio::null()).stderr(std::process::Stdio::null()).status()), _ => None };
+            if st_k.is_none() && std::env::var("VERIF_ALLOW_NO_STACKCHECK").is_err() { eprintln!("target/stackcheck/lh is missing: cargo build --profile stackcheck"); std::process::exit(2); }
+            let ok_k = match &st_k { Some(Ok(s)) => s.success(), Some(Err(_)) => false, None => true };
+            if !ok_k {
+                if let Ok(rd) = std::fs::read_dir(out_dir) { for f in rd.flatten() { if f.file_name().to_string_lossy().starts_with(&format!("c15k{si}-")) { let _ = std::fs::remove_file(f.path()); } } }
+                let how = match &st_k { Some(Ok(s)) => format!("{s}"), Some(Err(e)) => format!("{e}"), None => String::new() };
+                let rec = json!({"id": format!("c15-shape-died-unoptimised-{name}"), "cfg": proto_cfg(&json!({}), vec![], &["C15"]), "hasref": false, "ref": [],
+                    "tl": [{"e":"call","op":"new"},{"e":"enc"},{"e":"ret","res":"ok"},{"e":"call","op":"write","b":[]},{"e":"ret","res":"panic"}]});
+                sh.push(&rec, &json!({"id": rec["id"], "shape": name, "process": how, "note": "the unoptimised child process running this shape at half size did not exit normally (1 MiB thread stack)"}), None, true);
+            }
             let ok = matches!(&st, Ok(s) if s.success());
             if !ok {
                 // the child died (stack exhaustion, abort, ...): drop its partial files, record the event
@@ -650,11 +665,14 @@ fn job_c15_impl(out_dir: &str, tier: &str, seed: u64, only: Option<usize>) {
     for (sidx, (name, input)) in shapes.iter().enumerate() {
         if only != Some(sidx) { continue; }
         for (ci, bc) in big_cfgs.iter().enumerate() {
+            if stack_only && ci != 1 { continue; }
             let enc = if ci == 1 { "shift_jis" } else { "utf-8" };
             let cfg = gen::merge(bc, &json!({"strict": false, "enc": enc, "light": true}));
             for cuts in [vec![], vec![input.len() / 3, input.len() / 2], (1..8).map(|i| i * 4096).filter(|&c| c < input.len()).collect::<Vec<_>>()] {
+                if stack_only && !cuts.is_empty() { continue; }
                 let dt = emit(&mut sh, &cfg, input, &cuts, &mut n, false);
                 big_runs += 1;
+                if stack_only { continue; }
                 let us_per_kb = dt * 1e6 / ((input.len() as f64) / 1024.0);
                 if us_per_kb > max_us_per_kb { max_us_per_kb = us_per_kb; }
                 // "work stays proportional to input size", decided without a wall-clock threshold (which depends on the
@@ -689,7 +707,7 @@ fn job_c15_impl(out_dir: &str, tier: &str, seed: u64, only: Option<usize>) {
     }
     // (3) with a memory limit the same shapes must fail cleanly, not panic
     for (sidx, (_name, input)) in shapes.iter().enumerate() {
-        if only != Some(sidx) { continue; }
+        if only != Some(sidx) || stack_only { continue; }
         let cfg = json!({"strict": false, "elem":[{"sel":"*","element":[],"text":[]}], "mem": {"max": 4096, "prealloc": 1024, "graceful": true}});
         emit(&mut sh, &cfg, input, &[input.len() / 2], &mut n, false);
         big_runs += 1;
